@@ -1,5 +1,356 @@
-import Arp.Model.Arith
-import Arp.Spec.Ops
+import Arp.Lemmas.Canonical
+/-!
+# C04 — results stay canonical
+
+* per-operation statements: canonical operands of a well-formed format give a canonical
+  result of the expected format (one-line corollaries of `Arp/Lemmas/Canonical.lean`);
+* `eval_canonical`: the same for every finite history of operations (`Expr`);
+* `beq_iff`, `nan_ne`: `==` on canonical values is equality of the denoted extended reals.
+-/
 namespace Arp.C04
-theorem smoke : (1:Nat) + 1 = 2 := rfl
+open Arp
+
+/-! ## The central lemma and the constructors -/
+
+/-- `normalize` yields a canonical value from ANY normal-category input: any exponent, any
+    significand (any length, even 0), any incoming loss, any rounding mode. -/
+theorem normalize_canonical (x : Flt) (rm : RM) (loss : Loss) (hF : x.sem.WF) (hx : x.cat = .normal) :
+    (x.normalize rm loss).Canonical ∧ (x.normalize rm loss).sem = x.sem
+      ∧ (x.normalize rm loss).sign = x.sign :=
+  ⟨Arp.normalize_canonical x rm loss hF hx, normalize_sem x rm loss, normalize_sign x rm loss⟩
+
+theorem overflow_canonical (x : Flt) (rm : RM) (hF : x.sem.WF) : (x.overflow rm).Canonical :=
+  Arp.overflow_canonical x rm hF
+
+theorem new_canonical (s : Sem) (sg : Bool) (e : Int) (m : Nat)
+    (he1 : s.emin ≤ e) (he2 : e ≤ s.emax) (hm : m < 2 ^ s.p)
+    (hn : m ≠ 0 → 2 ^ (s.p - 1) ≤ m ∨ e = s.emin) : (Flt.new s sg e m).Canonical :=
+  Flt.new_canonical s sg e m he1 he2 hm hn
+
+theorem zero_canonical (s : Sem) (sg : Bool) : (Flt.zero s sg).Canonical := Flt.zero_canonical s sg
+theorem inf_canonical (s : Sem) (sg : Bool) : (Flt.inf s sg).Canonical := Flt.inf_canonical s sg
+theorem nan_canonical (s : Sem) (sg : Bool) : (Flt.nan s sg).Canonical := Flt.nan_canonical s sg
+theorem one_canonical (s : Sem) (sg : Bool) (hF : s.WF) : (Flt.one s sg).Canonical :=
+  Flt.one_canonical s sg hF
+
+/-! ## Every operation -/
+
+theorem add_canon (a b : Flt) (rm : RM) (hF : a.sem.WF) (hs : b.sem = a.sem) (ha : a.Canonical)
+    (hb : b.Canonical) : (addWithRm a b rm).Canonical ∧ (addWithRm a b rm).sem = a.sem :=
+  addWithRm_canonical a b rm hF hs ha hb
+
+theorem sub_canon (a b : Flt) (rm : RM) (hF : a.sem.WF) (hs : b.sem = a.sem) (ha : a.Canonical)
+    (hb : b.Canonical) : (subWithRm a b rm).Canonical ∧ (subWithRm a b rm).sem = a.sem :=
+  subWithRm_canonical a b rm hF hs ha hb
+
+/-- (holds even for non-canonical operands: the product is always re-normalised) -/
+theorem mul_canon (a b : Flt) (rm : RM) (hF : a.sem.WF) :
+    (mulWithRm a b rm).Canonical ∧ (mulWithRm a b rm).sem = a.sem :=
+  mulWithRm_canonical a b rm hF
+
+/-- (holds even for non-canonical operands) -/
+theorem div_canon (a b : Flt) (rm : RM) (hF : a.sem.WF) :
+    (divWithRm a b rm).Canonical ∧ (divWithRm a b rm).sem = a.sem :=
+  divWithRm_canonical a b rm hF
+
+/-- (the source format need not be well formed) -/
+theorem castWithRm_canon (x : Flt) (tgt : Sem) (rm : RM) (hT : tgt.WF) (hx : x.Canonical) :
+    (x.castWithRm tgt rm).Canonical ∧ (x.castWithRm tgt rm).sem = tgt :=
+  castWithRm_canonical x tgt rm hT hx
+
+theorem cast_canon (x : Flt) (tgt : Sem) (hT : tgt.WF) (hx : x.Canonical) :
+    (x.cast tgt).Canonical ∧ (x.cast tgt).sem = tgt :=
+  cast_canonical x tgt hT hx
+
+theorem scale_canon (x : Flt) (k : Int) (rm : RM) (hF : x.sem.WF) (hx : x.Canonical) :
+    (x.scale k rm).Canonical ∧ (x.scale k rm).sem = x.sem :=
+  scale_canonical x k rm hF hx
+
+theorem fromBigint_canon (sem : Sem) (v : Nat) (hF : sem.WF) :
+    (Arp.fromBigint sem v).Canonical ∧ (Arp.fromBigint sem v).sem = sem :=
+  fromBigint_canonical sem v hF
+
+theorem fromU64_canon (sem : Sem) (v : Nat) (hF : sem.WF) :
+    (Arp.fromU64 sem v).Canonical ∧ (Arp.fromU64 sem v).sem = sem :=
+  fromU64_canonical sem v hF
+
+theorem fromI64_canon (sem : Sem) (v : Int) (hF : sem.WF) :
+    (Arp.fromI64 sem v).Canonical ∧ (Arp.fromI64 sem v).sem = sem :=
+  fromI64_canonical sem v hF
+
+theorem trunc_canon (x : Flt) (hx : x.Canonical) : x.trunc.Canonical ∧ x.trunc.sem = x.sem :=
+  trunc_canonical x hx
+
+theorem round_canon (x : Flt) (hF : x.sem.WF) (hx : x.Canonical) : x.round.Canonical ∧ x.round.sem = x.sem :=
+  round_canonical x hF hx
+
+theorem abs_canon (x : Flt) (hx : x.Canonical) : x.abs.Canonical ∧ x.abs.sem = x.sem := abs_canonical x hx
+theorem neg_canon (x : Flt) (hx : x.Canonical) : x.neg.Canonical ∧ x.neg.sem = x.sem := neg_canonical x hx
+
+theorem min_canon (a b : Flt) (hs : b.sem = a.sem) (ha : a.Canonical) (hb : b.Canonical) :
+    (a.min b).Canonical ∧ (a.min b).sem = a.sem := min_canonical a b hs ha hb
+
+theorem max_canon (a b : Flt) (hs : b.sem = a.sem) (ha : a.Canonical) (hb : b.Canonical) :
+    (a.max b).Canonical ∧ (a.max b).sem = a.sem := max_canonical a b hs ha hb
+
+theorem powi_canon (x : Flt) (n : Nat) (hF : x.sem.WF) (hx : x.Canonical) :
+    (x.powi n).Canonical ∧ (x.powi n).sem = x.sem := powi_canonical x n hF hx
+
+theorem rem_canon (fuel : Nat) (x y r : Flt) (hF : x.sem.WF) (hs : y.sem = x.sem) (hx : x.Canonical)
+    (hy : y.Canonical) (h : x.remFuel fuel y = some r) : r.Canonical ∧ r.sem = x.sem :=
+  remFuel_canonical fuel x y r hF hs hx hy h
+
+theorem sqrt_canon (fuel : Nat) (x r : Flt) (hF : x.sem.WF) (hx : x.Canonical)
+    (h : x.sqrtFuel fuel = some r) : r.Canonical ∧ r.sem = x.sem :=
+  sqrtFuel_canonical fuel x r hF hx h
+
+/-! ## Histories: any finite sequence (tree) of operations -/
+
+/-- A history of operations.  Leaves are literal values (and the integer loaders). -/
+inductive Expr
+  | lit (x : Flt)
+  | add (rm : RM) (a b : Expr)
+  | sub (rm : RM) (a b : Expr)
+  | mul (rm : RM) (a b : Expr)
+  | div (rm : RM) (a b : Expr)
+  | cast (tgt : Sem) (rm : RM) (e : Expr)
+  /-- `Float::cast`: the source format's own mode -/
+  | castOwn (tgt : Sem) (e : Expr)
+  | scale (k : Int) (rm : RM) (e : Expr)
+  | trunc (e : Expr)
+  | round (e : Expr)
+  | abs (e : Expr)
+  | neg (e : Expr)
+  | min (a b : Expr)
+  | max (a b : Expr)
+  | powi (n : Nat) (e : Expr)
+  | fromU64 (sem : Sem) (v : Nat)
+  | fromI64 (sem : Sem) (v : Int)
+  | fromBigint (sem : Sem) (v : Nat)
+  | rem (fuel : Nat) (a b : Expr)
+  | sqrt (fuel : Nat) (e : Expr)
+
+/-- A binary node: defined only when both operands are, and have the same `Semantics`
+    (the Rust code debug-asserts this). -/
+def bin (f : Flt → Flt → Option Flt) (a b : Option Flt) : Option Flt :=
+  match a, b with
+  | some x, some y => if y.sem = x.sem then f x y else none
+  | _, _ => none
+
+/-- Evaluate a history with the implementation model; `none` when a binary node meets two
+    formats or when a fuel-bounded loop runs out of fuel. -/
+def eval : Expr → Option Flt
+  | .lit x => some x
+  | .add rm a b => bin (fun x y => some (addWithRm x y rm)) (eval a) (eval b)
+  | .sub rm a b => bin (fun x y => some (subWithRm x y rm)) (eval a) (eval b)
+  | .mul rm a b => bin (fun x y => some (mulWithRm x y rm)) (eval a) (eval b)
+  | .div rm a b => bin (fun x y => some (divWithRm x y rm)) (eval a) (eval b)
+  | .cast tgt rm e => (eval e).bind (fun x => some (x.castWithRm tgt rm))
+  | .castOwn tgt e => (eval e).bind (fun x => some (x.cast tgt))
+  | .scale k rm e => (eval e).bind (fun x => some (x.scale k rm))
+  | .trunc e => (eval e).bind (fun x => some x.trunc)
+  | .round e => (eval e).bind (fun x => some x.round)
+  | .abs e => (eval e).bind (fun x => some x.abs)
+  | .neg e => (eval e).bind (fun x => some x.neg)
+  | .min a b => bin (fun x y => some (x.min y)) (eval a) (eval b)
+  | .max a b => bin (fun x y => some (x.max y)) (eval a) (eval b)
+  | .powi n e => (eval e).bind (fun x => some (x.powi n))
+  | .fromU64 sem v => some (Arp.fromU64 sem v)
+  | .fromI64 sem v => some (Arp.fromI64 sem v)
+  | .fromBigint sem v => some (Arp.fromBigint sem v)
+  | .rem fuel a b => bin (fun x y => x.remFuel fuel y) (eval a) (eval b)
+  | .sqrt fuel e => (eval e).bind (fun x => x.sqrtFuel fuel)
+
+/-- Every literal is canonical in a well-formed format; every target format is well formed. -/
+def Expr.WFLeaves : Expr → Prop
+  | .lit x => x.Canonical ∧ x.sem.WF
+  | .add _ a b | .sub _ a b | .mul _ a b | .div _ a b | .min a b | .max a b | .rem _ a b =>
+      a.WFLeaves ∧ b.WFLeaves
+  | .cast tgt _ e | .castOwn tgt e => tgt.WF ∧ e.WFLeaves
+  | .scale _ _ e | .trunc e | .round e | .abs e | .neg e | .powi _ e | .sqrt _ e => e.WFLeaves
+  | .fromU64 sem _ | .fromI64 sem _ | .fromBigint sem _ => sem.WF
+
+private theorem bin_ok (f : Flt → Flt → Option Flt)
+    (hf : ∀ x y r, x.sem.WF → y.sem = x.sem → x.Canonical → y.Canonical → f x y = some r →
+      r.Canonical ∧ r.sem = x.sem)
+    (ea eb : Option Flt)
+    (iha : ∀ r, ea = some r → r.Canonical ∧ r.sem.WF) (ihb : ∀ r, eb = some r → r.Canonical ∧ r.sem.WF)
+    (r : Flt) (h : bin f ea eb = some r) : r.Canonical ∧ r.sem.WF := by
+  unfold bin at h
+  split at h
+  · rename_i x y
+    split at h
+    · rename_i hs
+      obtain ⟨hx, hxF⟩ := iha x rfl
+      obtain ⟨hy, _⟩ := ihb y rfl
+      obtain ⟨h1, h2⟩ := hf x y r hxF hs hx hy h
+      exact ⟨h1, by rw [h2]; exact hxF⟩
+    · cases h
+  · cases h
+
+private theorem un_ok (f : Flt → Option Flt)
+    (hf : ∀ x r, x.sem.WF → x.Canonical → f x = some r → r.Canonical ∧ r.sem.WF)
+    (ea : Option Flt) (iha : ∀ r, ea = some r → r.Canonical ∧ r.sem.WF)
+    (r : Flt) (h : ea.bind f = some r) : r.Canonical ∧ r.sem.WF := by
+  cases ea with
+  | none => cases h
+  | some x =>
+    obtain ⟨hx, hxF⟩ := iha x rfl
+    exact hf x r hxF hx h
+
+/-- **C04 for histories**: whatever finite tree of operations is applied to canonical
+    literals of well-formed formats, every value that results is canonical (and its format
+    is well formed, so that the statement composes). -/
+theorem eval_canonical (e : Expr) (h : e.WFLeaves) (r : Flt) (hr : eval e = some r) :
+    r.Canonical ∧ r.sem.WF := by
+  induction e generalizing r with
+  | lit x => cases hr; exact h
+  | add rm a b iha ihb =>
+    exact bin_ok _ (fun x y r hF hs hx hy h => by cases h; exact addWithRm_canonical x y rm hF hs hx hy)
+      _ _ (iha h.1) (ihb h.2) r hr
+  | sub rm a b iha ihb =>
+    exact bin_ok _ (fun x y r hF hs hx hy h => by cases h; exact subWithRm_canonical x y rm hF hs hx hy)
+      _ _ (iha h.1) (ihb h.2) r hr
+  | mul rm a b iha ihb =>
+    exact bin_ok _ (fun x y r hF _ _ _ h => by cases h; exact mulWithRm_canonical x y rm hF)
+      _ _ (iha h.1) (ihb h.2) r hr
+  | div rm a b iha ihb =>
+    exact bin_ok _ (fun x y r hF _ _ _ h => by cases h; exact divWithRm_canonical x y rm hF)
+      _ _ (iha h.1) (ihb h.2) r hr
+  | cast tgt rm e ih =>
+    refine un_ok _ (fun x r _ hx h' => ?_) _ (ih h.2) r hr
+    cases h'
+    have := castWithRm_canonical x tgt rm h.1 hx
+    exact ⟨this.1, by rw [this.2]; exact h.1⟩
+  | castOwn tgt e ih =>
+    refine un_ok _ (fun x r _ hx h' => ?_) _ (ih h.2) r hr
+    cases h'
+    have := cast_canonical x tgt h.1 hx
+    exact ⟨this.1, by rw [this.2]; exact h.1⟩
+  | scale k rm e ih =>
+    refine un_ok _ (fun x r hF hx h' => ?_) _ (ih h) r hr
+    cases h'
+    have := scale_canonical x k rm hF hx
+    exact ⟨this.1, by rw [this.2]; exact hF⟩
+  | trunc e ih =>
+    refine un_ok _ (fun x r hF hx h' => ?_) _ (ih h) r hr
+    cases h'
+    have := trunc_canonical x hx
+    exact ⟨this.1, by rw [this.2]; exact hF⟩
+  | round e ih =>
+    refine un_ok _ (fun x r hF hx h' => ?_) _ (ih h) r hr
+    cases h'
+    have := round_canonical x hF hx
+    exact ⟨this.1, by rw [this.2]; exact hF⟩
+  | abs e ih =>
+    refine un_ok _ (fun x r hF hx h' => ?_) _ (ih h) r hr
+    cases h'; exact ⟨hx, hF⟩
+  | neg e ih =>
+    refine un_ok _ (fun x r hF hx h' => ?_) _ (ih h) r hr
+    cases h'; exact ⟨hx, hF⟩
+  | min a b iha ihb =>
+    exact bin_ok _ (fun x y r _ hs hx hy h => by cases h; exact min_canonical x y hs hx hy)
+      _ _ (iha h.1) (ihb h.2) r hr
+  | max a b iha ihb =>
+    exact bin_ok _ (fun x y r _ hs hx hy h => by cases h; exact max_canonical x y hs hx hy)
+      _ _ (iha h.1) (ihb h.2) r hr
+  | powi n e ih =>
+    refine un_ok _ (fun x r hF hx h' => ?_) _ (ih h) r hr
+    cases h'
+    have := powi_canonical x n hF hx
+    exact ⟨this.1, by rw [this.2]; exact hF⟩
+  | fromU64 sem v =>
+    cases hr
+    have := fromU64_canonical sem v h
+    exact ⟨this.1, by rw [this.2]; exact h⟩
+  | fromI64 sem v =>
+    cases hr
+    have := fromI64_canonical sem v h
+    exact ⟨this.1, by rw [this.2]; exact h⟩
+  | fromBigint sem v =>
+    cases hr
+    have := fromBigint_canonical sem v h
+    exact ⟨this.1, by rw [this.2]; exact h⟩
+  | rem fuel a b iha ihb =>
+    exact bin_ok _ (fun x y r hF hs hx hy h => remFuel_canonical fuel x y r hF hs hx hy h)
+      _ _ (iha h.1) (ihb h.2) r hr
+  | sqrt fuel e ih =>
+    refine un_ok _ (fun x r hF hx h' => ?_) _ (ih h) r hr
+    have := sqrtFuel_canonical fuel x r hF hx h'
+    exact ⟨this.1, by rw [this.2]; exact hF⟩
+
+/-- the FP16 literals 1.0 and 3.0 -/
+def one16 : Flt := ⟨FP16, false, 0, 1024, .normal⟩
+def three16 : Flt := ⟨FP16, false, 1, 1536, .normal⟩
+
+/-- The hypotheses of `eval_canonical` are satisfiable by a non-trivial history:
+    `sqrt(1.0 / 3.0)` in FP16 (fuel 50) has well-formed leaves and evaluates. -/
+example : (Expr.sqrt 50 (.div .nte (.lit one16) (.lit three16))).WFLeaves := by
+  simp only [Expr.WFLeaves, Sem.WF, one16, three16, FP16, Flt.Canonical]
+  decide
+
+example : ∃ r, eval (Expr.sqrt 50 (.div .nte (.lit one16) (.lit three16))) = some r := by
+  refine ⟨⟨FP16, false, -1, 1182, .normal⟩, ?_⟩
+  decide
+
+/-! ## Equality (`PartialEq`) -/
+
+/-- A NaN on either side makes `==` false (no further hypothesis is needed). -/
+theorem nan_ne (a b : Flt) (h : a.cat = .nan ∨ b.cat = .nan) : a.beq b = false := by
+  rcases h with h | h
+  · simp [Flt.beq, h]
+  · cases ha : a.cat <;> simp [Flt.beq, ha, h]
+
+/-- On canonical non-NaN values of one format, `==` is equality of the denoted extended
+    reals (so `+0 == -0`, and otherwise equal values have identical fields). -/
+theorem beq_iff (a b : Flt) (hs : b.sem = a.sem) (ha : a.Canonical) (hb : b.Canonical)
+    (hna : a.cat ≠ .nan) (hnb : b.cat ≠ .nan) : a.beq b = true ↔ (Spec.ext a = Spec.ext b) := by
+  cases hca : a.cat <;> cases hcb : b.cat <;>
+    first | exact absurd hca hna | exact absurd hcb hnb | skip
+  · -- inf, inf
+    obtain ⟨ae, am⟩ := (Flt.canonical_special (by rw [hca]; decide)).mp ha
+    obtain ⟨be, bm⟩ := (Flt.canonical_special (by rw [hcb]; decide)).mp hb
+    simp only [Flt.beq, Spec.ext, hca, hcb, ae, am, be, bm]
+    cases a.sign <;> cases b.sign <;> simp
+  · -- inf, normal
+    simp only [Flt.beq, Spec.ext, hca, hcb]
+    cases a.sign <;> simp
+  · -- inf, zero
+    simp only [Flt.beq, Spec.ext, hca, hcb]
+    cases a.sign <;> simp
+  · -- normal, inf
+    simp only [Flt.beq, Spec.ext, hca, hcb]
+    cases b.sign <;> simp
+  · -- normal, normal
+    simp only [Flt.beq, Spec.ext, hca, hcb]
+    constructor
+    · intro h
+      simp only [Bool.and_eq_true, beq_iff_eq] at h
+      obtain ⟨⟨⟨h1, h2⟩, h3⟩, _⟩ := h
+      have : a.val = b.val := by
+        unfold Flt.val Flt.mag
+        rw [hca, hcb, h1, h2, h3, hs]
+      rw [this]
+    · intro h
+      have hv : a.val = b.val := (Prod.mk.injEq _ _ _ _ ▸ h).2
+      obtain ⟨h1, h2, h3⟩ := val_inj a b hs ha hb hca hcb hv
+      simp [h1, h2, h3]
+  · -- normal, zero
+    have := Flt.val_ne_zero a hca ha
+    have hb0 : b.val = 0 := by unfold Flt.val; rw [hcb]
+    simp only [Flt.beq, Spec.ext, hca, hcb, hb0]
+    simp [this]
+  · -- zero, inf
+    simp only [Flt.beq, Spec.ext, hca, hcb]
+    cases b.sign <;> simp [Flt.val, hca]
+  · -- zero, normal
+    have := Flt.val_ne_zero b hcb hb
+    have ha0 : a.val = 0 := by unfold Flt.val; rw [hca]
+    simp only [Flt.beq, Spec.ext, hca, hcb, ha0]
+    simp [Ne.symm this]
+  · -- zero, zero
+    have ha0 : a.val = 0 := by unfold Flt.val; rw [hca]
+    have hb0 : b.val = 0 := by unfold Flt.val; rw [hcb]
+    simp [Flt.beq, Spec.ext, hca, hcb, ha0, hb0]
+
 end Arp.C04
